@@ -30,7 +30,7 @@ func init() { log.SetOutput(io.Discard) }
 
 // Event is one step before the terminating event.
 type Event struct {
-	Kind string `json:"kind"`           // deliver | req-parked | req-now
+	Kind string `json:"kind"`           // deliver | req-parked | req-now | write-fault (a Write of the application fails with a temporary error; the connection lives on)
 	N    int    `json:"n,omitempty"`    // deliver: number of messages
 	Cuts []int  `json:"cuts,omitempty"` // deliver: fragment sizes (remainder = last fragment)
 	Mark int    `json:"mark,omitempty"` // deliver: 1-based index of the message whose handler requests CloseNotify (0: none)
@@ -294,6 +294,27 @@ func runCase(c Case) *ev.Failure {
 			h.mu.Lock()
 			h.chans = append(h.chans, ch)
 			h.mu.Unlock()
+		case "write-fault":
+			// the transport refuses one Write with a temporary error (a write deadline that
+			// expired, a full send buffer): that is not the end of the connection
+			mc.WriteHook = func(b []byte, accept func([]byte)) (int, error) {
+				return 0, &memnet.TempError{Msg: "scripted temporary write error"}
+			}
+			_, werr := conn.Write(appMessage(9000+i, false))
+			mc.WriteHook = nil
+			if werr == nil {
+				cleanup()
+				return ev.Failf("harness-write", "event %d: the scripted write fault was not reported to the caller", i)
+			}
+			h.mu.Lock()
+			chs := append([]<-chan struct{}{}, h.chans...)
+			h.mu.Unlock()
+			for k, ch := range chs {
+				if !isOpen(ch) {
+					cleanup()
+					return ev.Failf("closed-early", "event %d: after a Write failed with a temporary error CloseNotify channel %d is closed although the connection has not terminated (it still receives and sends)", i, k)
+				}
+			}
 		}
 	}
 	// everything delivered so far must be dispatched before the connection goes away
@@ -472,6 +493,8 @@ func classify(c Case) (bool, []string) {
 		case "req-now":
 			reqs++
 			cl = append(cl, "request-any-time")
+		case "write-fault":
+			cl = append(cl, "failed-write-on-a-live-connection")
 		}
 	}
 	if strings.HasSuffix(c.Term, "-handler-waits") {
@@ -499,11 +522,13 @@ func classify(c Case) (bool, []string) {
 }
 
 func genEvent(t *rapid.T) Event {
-	switch rapid.IntRange(0, 4).Draw(t, "event") {
+	switch rapid.IntRange(0, 5).Draw(t, "event") {
 	case 0:
 		return Event{Kind: "req-parked"}
 	case 1:
 		return Event{Kind: "req-now"}
+	case 5:
+		return Event{Kind: "write-fault"}
 	default:
 		e := Event{Kind: "deliver", N: rapid.IntRange(1, 4).Draw(t, "n"), Wait: rapid.Bool().Draw(t, "wait")}
 		if rapid.Bool().Draw(t, "marked") {
@@ -531,7 +556,7 @@ func genCase(t *rapid.T) Case {
 
 var prop = ev.Register(&ev.Prop[Case]{
 	ID: "C14", Name: "closenotify",
-	Rule: "orders of events {deliver 1..4 valid messages in arbitrary fragments (optionally one handler requests CloseNotify), request CloseNotify from another goroutine while the reader is parked, request it at an arbitrary moment} followed by exactly one terminating event {peer EOF, transport read error, undecodable message with 200 B / 9 KB of trailing data, local Close, the last message together with EOF / error, handler panic; EOF / read error / local Close while a handler waits for a channel requested earlier} and 0..2 requests after termination; 1 in 4 with a Write of another goroutine stuck in the transport when the connection terminates; on a plain connection and through sm.Client with the watchdog enabled; every channel must be open before and closed within 3 s after termination, messages dispatched once each in order, and no goroutine with diam.(*conn).serve / closeNotify.func / sm.(*Client).watchdog on its stack may remain; non-trivial = at least one CloseNotify request and one delivered message; distinct by event order",
+	Rule: "orders of events {deliver 1..4 valid messages in arbitrary fragments (optionally one handler requests CloseNotify), request CloseNotify from another goroutine while the reader is parked, request it at an arbitrary moment, a Write that fails with a temporary error on the live connection} followed by exactly one terminating event {peer EOF, transport read error, undecodable message with 200 B / 9 KB of trailing data, local Close, the last message together with EOF / error, handler panic; EOF / read error / local Close while a handler waits for a channel requested earlier} and 0..2 requests after termination; 1 in 4 with a Write of another goroutine stuck in the transport when the connection terminates; on a plain connection and through sm.Client with the watchdog enabled; every channel must be open before and closed within 3 s after termination, messages dispatched once each in order, and no goroutine with diam.(*conn).serve / closeNotify.func / sm.(*Client).watchdog on its stack may remain; non-trivial = at least one CloseNotify request and one delivered message; distinct by event order",
 	Gen:  genCase, Run: runCase, Classify: classify, Attempts: 5,
 })
 
